@@ -84,19 +84,146 @@ def _deep_conds(view: FuncInfo, sh: Shapes, p: Production, depth: int = 0) -> li
     """Alternative condition lists under which the produced element exists: the event's own conditions, extended by the
     conditions under which the elements it draws from a local collection were put there."""
     base = list(p.conds)
-    if depth > 2:
+    for t, it in p.loops:
+        base += _iteration_conds(t, it)
+    if depth > 3:
         return [base]
     for _t, it in p.loops:
         src = _strip(it)
         if isinstance(src, ast.Name) and src.id not in view.param_names:
-            inner = [q for q in productions(view, src) if q.elt is not None]
+            allq = productions(view, src)
+            inner = [q for q in allq if q.elt is not None or (q.merged is not None and q.node is not src and (q.conds or any(_iteration_conds(t2, it2) for t2, it2 in q.loops)))]
             if inner and all(q.node is not p.node for q in inner):
                 out = []
                 for q in inner:
+                    if q.elt is None:
+                        # a collection merged in wholesale (`result.extend(groups.get(layer, ()))`): the conditions of the
+                        # merge, and those under which the merged collection itself was filled
+                        around = [c for t2, it2 in q.loops for c in _iteration_conds(t2, it2)]
+                        for cs in _merged_conds(view, sh, q.merged, depth + 1):
+                            out.append(base + list(q.conds) + around + cs)
+                        continue
                     for cs in _deep_conds(view, sh, q, depth + 1):
                         out.append(base + cs)
                 return out
     return [base]
+
+
+_ITER_BUILTINS = {"list", "set", "tuple", "frozenset", "sorted", "reversed", "iter", "filter", "map", "zip", "enumerate", "chain", "from_iterable", "dict", "islice", "product", "starmap", "groupby"}
+
+
+def _opaque_call(sh: Shapes, c: ast.expr) -> bool:
+    """A call whose result is produced by code the view does not show: a function / method of the repo that was not inlined (a
+    generator with nested definitions, a callable object, a stored callback)."""
+    if not isinstance(c, ast.Call):
+        return False
+    f = c.func
+    if isinstance(f, ast.Name):
+        return f.id not in _ITER_BUILTINS
+    if isinstance(f, ast.Attribute):
+        if f.attr in _ITER_BUILTINS:
+            return False
+        root = f.value
+        while isinstance(root, (ast.Attribute, ast.Call, ast.Subscript)):
+            root = root.func if isinstance(root, ast.Call) else root.value
+        if isinstance(root, ast.Name) and root.id in ("self", "cls"):
+            return True  # a method (or stored callable) of the detector that stayed a call
+        return not sh.tags(c)
+    return True
+
+
+def _unfollowed_source(view: FuncInfo, sh: Shapes, p: Production, depth: int = 0) -> ast.expr | None:
+    """An iteration source of the production (or of the local collections it draws from) whose elements come out of code the
+    view does not show."""
+    for _t, it in p.loops:
+        src = _strip(it)
+        if isinstance(src, ast.Name) and src.id not in view.param_names and depth < 3:
+            for q in productions(view, src):
+                if q.node is p.node:
+                    continue
+                if q.elt is None and q.merged is not None and q.node is not src:
+                    if _opaque_call(sh, _strip(q.merged)):
+                        return _strip(q.merged)
+                elif q.elt is not None:
+                    got = _unfollowed_source(view, sh, q, depth + 1)
+                    if got is not None:
+                        return got
+        elif _opaque_call(sh, src):
+            return src
+    return None
+
+
+def _iteration_conds(target: ast.expr, it: ast.expr) -> list:
+    """Conditions the elements of an iteration source satisfy by construction: `for x in xs - done` iterates elements that are
+    `not in done`, `for x in xs & wanted` / `wanted.intersection(xs)` elements that are `in wanted`."""
+    if not isinstance(target, ast.Name):
+        return []
+    src = _strip(it)
+    out = []
+
+    def member(coll: ast.expr, positive: bool):
+        c = ast.Compare(left=ast.Name(id=target.id, ctx=ast.Load()), ops=[ast.In() if positive else ast.NotIn()], comparators=[coll])
+        ast.copy_location(c, it)
+        ast.copy_location(c.left, it)
+        return (c, True)
+
+    if isinstance(src, ast.BinOp) and isinstance(src.op, ast.Sub):
+        out.append(member(src.right, False))
+        out += _iteration_conds(target, src.left)
+    elif isinstance(src, ast.BinOp) and isinstance(src.op, ast.BitAnd):
+        for side in (src.left, src.right):
+            if isinstance(_strip(side), ast.Name):
+                out.append(member(side, True))
+    elif isinstance(src, ast.Call) and isinstance(src.func, ast.Attribute) and src.args:
+        if src.func.attr == "difference":
+            out += [member(a, False) for a in src.args]
+            out += _iteration_conds(target, src.func.value)
+        elif src.func.attr == "intersection":
+            for side in (src.func.value, *src.args):
+                if isinstance(_strip(side), ast.Name):
+                    out.append(member(side, True))
+    return out
+
+
+def _merged_conds(view: FuncInfo, sh: Shapes, e: ast.expr, depth: int) -> list[list]:
+    """Alternative condition lists under which the elements of the collection `e` got there: `e` is a local collection, or one
+    value of a local dictionary of collections (`groups[layer]`, `groups.get(layer, ())`)."""
+    e = _strip(e)
+    if depth > 3:
+        return [[]]
+    if isinstance(e, ast.Name) and e.id not in view.param_names:
+        out = []
+        for q in productions(view, e):
+            if q.elt is not None:
+                out += _deep_conds(view, sh, q, depth + 1)
+            elif q.merged is not None and q.node is not e:
+                out += [list(q.conds) + cs for cs in _merged_conds(view, sh, q.merged, depth + 1)]
+        return out or [[]]
+    d = None
+    if isinstance(e, ast.Subscript) and not isinstance(e.slice, ast.Slice):
+        d = e.value
+    elif isinstance(e, ast.Call) and isinstance(e.func, ast.Attribute) and e.func.attr in ("get", "pop", "setdefault") and e.args:
+        d = e.func.value
+    if isinstance(d, ast.Name) and d.id not in view.param_names:
+        out = [list(conds(view, ev)) for ev in _dict_value_events(view, d.id)]
+        return out or [[]]
+    return [[]]
+
+
+def _dict_value_events(view: FuncInfo, name: str) -> list[ast.AST]:
+    """Events that put an element into one of the collections a local dictionary holds: `d[k].append(x)`,
+    `d.setdefault(k, []).append(x)`, `d[k] = d.get(k, []) + [x]`, `d[k] += [x]`."""
+    out: list[ast.AST] = []
+    for n in all_nodes(view):
+        if isinstance(n, ast.Call) and isinstance(n.func, ast.Attribute) and n.func.attr in ("append", "add", "extend", "update", "insert", "appendleft"):
+            r = n.func.value
+            if isinstance(r, ast.Subscript) and isinstance(r.value, ast.Name) and r.value.id == name:
+                out.append(n)
+            elif isinstance(r, ast.Call) and isinstance(r.func, ast.Attribute) and r.func.attr in ("setdefault", "get") and isinstance(r.func.value, ast.Name) and r.func.value.id == name:
+                out.append(n)
+        elif isinstance(n, ast.Subscript) and isinstance(n.ctx, ast.Store) and isinstance(n.value, ast.Name) and n.value.id == name:
+            out.append(n)
+    return out
 
 
 def check_detector(repo: Repo, res: Result) -> None:
@@ -201,6 +328,26 @@ def _absent_guard(view: FuncInfo, sh: Shapes, keyp: list[Production], jmap: dict
             scope = "" if (src == "O" or j.grp) else ":ALL-LAYERS"
             a_any, a_all = atom(f"ANY:{src}{scope}:{j.clean if src == 'O' else ''}"), atom(f"ALL:{src}{scope}")
             return {"any": a_any, "none": f_not(a_any), "all": a_all, "some-empty": f_not(a_all)}[j.kind]
+        if isinstance(e, ast.Name) and isinstance(e.ctx, ast.Load) and e.id not in view.param_names and e.id not in _membership_stack and not sh.tags(e):
+            # truth of a locally built collection ("was anything put there at all"): an existential over *all* keys
+            allq = productions(view, e)
+            prods = [q for q in allq if q.elt is not None]
+            if prods and len(prods) == len(allq) and all(isinstance(q.node, ast.Call) for q in prods):
+                _membership_stack.append(e.id)
+                try:
+                    alts = []
+                    for q in prods:
+                        f_q = conds_formula(q.conds, subst)
+                        if sh._keyed_by_data(q.node if isinstance(q.node, ast.stmt) else _stmt(q.node)) != src:
+                            return None
+                        f_q = _lift(f_q, src, everywhere=True)
+                        if f_q is None:
+                            return None
+                        alts.append(f_q)
+                finally:
+                    _membership_stack.pop()
+                return f_or(alts)
+            return None
         if isinstance(e, ast.Compare) and len(e.ops) == 1 and isinstance(e.ops[0], (ast.In, ast.NotIn)):
             # membership in a locally built collection: the condition under which its elements were put there
             coll = _strip(e.comparators[0])
@@ -263,6 +410,9 @@ def _absent_guard(view: FuncInfo, sh: Shapes, keyp: list[Production], jmap: dict
                     return None, None, f"`{norm(p.elt, 50)}` is returned wholesale: the conditions under which its elements were collected could not be followed"
                 if odd:
                     return None, None, f"the condition `{norm(odd[-1], 60)}` under which `{norm(p.elt, 50)}` is reported missing was not understood"
+                blind = _unfollowed_source(view, sh, p)
+                if blind is not None:
+                    return None, None, f"`{norm(p.elt, 50)}` is reported for the elements of `{norm(blind, 60)}`, whose construction (a helper that is not inlined, stored state) was not followed: whether a realised pair of the layer suppresses the report is not known"
                 worst = (True, False, f"`{norm(p.elt, 50)}` is reported missing without testing whether the layer has any realised pair")
     if not reachable:
         return True, False, "the conditions under which a missing dependency is reported can never hold: the requirement can never be violated"
@@ -296,16 +446,18 @@ def _nnf(f, neg: bool = False):
     return ("or", parts)
 
 
-def _lift(f, src: str):
+def _lift(f, src: str, everywhere: bool = False):
     """Existential lifting over the keys: 'this key has a realisation' becomes 'some key of the layer has one';
-    'this key has none' becomes 'not all keys of the layer have one'. None when the formula mixes the two under a conjunction."""
+    'this key has none' becomes 'not all keys of the layer have one'. None when the formula mixes the two under a conjunction.
+    `everywhere`: the existential ranges over the keys of all layers (emptiness of a collection filled for every key)."""
     f = _nnf(f)
+    scope = ":ALL-LAYERS" if everywhere else ""
 
     def go(g):
         if g[0] == "atom" and g[1].startswith(f"ONE:{src}"):
-            return atom(f"ANY:{src}:{True if src == 'O' else ''}")
+            return atom(f"ANY:{src}{scope}:{True if src == 'O' else ''}")
         if g[0] == "not" and g[1][0] == "atom" and g[1][1].startswith(f"ONE:{src}"):
-            return f_not(atom(f"ALL:{src}"))
+            return f_not(atom(f"ALL:{src}{scope}"))
         if g[0] in ("and", "or"):
             return (g[0], [go(x) for x in g[1]])
         return g
